@@ -5,6 +5,7 @@ Prints one `MISMATCH …` line per disagreement, `INVFAIL …` when the represen
 invariant is false on a state dumped from the implementation, and a final `SUMMARY …`.
 -/
 import Gecs.Driver
+import Gecs.MacDriver
 
 open Gecs Gecs.Driver
 
@@ -83,6 +84,14 @@ partial def loop (h : IO.FS.Stream) (acc : RAcc) : IO RAcc := do
   for o in out do IO.println o
   loop h acc'
 
+partial def macLoop (h : IO.FS.Stream) : IO Unit := do
+  let line ← h.getLine
+  if line.isEmpty then return ()
+  match Gecs.MacDriver.caseLine line.trimAscii.toString with
+  | some out => IO.println out
+  | none => pure ()
+  macLoop h
+
 def main (args : List String) : IO UInt32 := do
   match args with
   | ["rt"] =>
@@ -90,6 +99,9 @@ def main (args : List String) : IO UInt32 := do
     let kinds := joinWith "," (acc.kinds.map (fun (k, n) => s!"{k}:{n}"))
     IO.println s!"SUMMARY seqs={acc.seqs} ops={acc.ops} mismatches={acc.mismatches} invfails={acc.invfails} dumps={acc.dumps} model_ub={acc.d.ub} growths={acc.d.growths} growth_diag={acc.d.growthDiag} kinds={kinds}"
     return (if acc.mismatches == 0 && acc.invfails == 0 && acc.d.ub == 0 then 0 else 1)
+  | ["mac"] =>
+    macLoop (← IO.getStdin)
+    return 0
   | _ =>
-    IO.eprintln "usage: gecs-model rt < trace"
+    IO.eprintln "usage: gecs-model rt < trace | gecs-model mac < cases"
     return 2
